@@ -271,6 +271,25 @@ def run_case(case):
         clean = {a for a in net.answers if a is not None}
         if D not in clean:
             accepted_mutated = 1
+    if rec is not None and outcome == "rejected" and fr in ("rtu", "tcp"):
+        # 'rejected' is a verdict about a FRAME too: some delivered datagram/segment must be a well-formed exception
+        # frame for this request's function (RTU: 7 bytes with a correct CRC) - a damaged one is not a rejection
+        req0 = net.transmissions[0]["data"]
+        fc = req0[7] if fr == "tcp" else req0[1]
+
+        def is_exc(d):
+            if fr == "tcp":
+                return len(d) >= 9 and d[7] == (fc | 0x80)
+            # the checksum holds - over the canonical 5 bytes (surplus bytes after the frame are tolerated, see C02) or
+            # over the whole datagram (the library's reading of an exception frame: everything before the last two bytes)
+            return len(d) >= 7 and d[:2] == b"\xaa\x55" and d[3] == (fc | 0x80) and \
+                (codec.crc_bytes(d[2:5]) == d[5:7] or codec.crc_bytes(d[2:-2]) == d[-2:])
+        got = [d["data"] for d in net.deliveries if d["status"] in ("delivered", "coalesced") and d["kind"] == "data"]
+        joined = b"".join(got)
+        if not any(is_exc(d) for d in got) and not is_exc(joined):
+            violations.append(viol(f"C01:rejected-on-damaged-frame:{fr}",
+                                   f"{case['mclass']}: the request ended as rejected ({rec.get('msg')!r}) but nothing that "
+                                   f"was delivered is a well-formed exception frame: {[d.hex() for d in got][:3]}"))
     for le in world.loop_exceptions:
         violations.append(viol(f"C01:validator-exception:{fr}:{le['exc_type']}",
                                f"{case['mclass']}: {le['exc']} in a protocol callback"))
